@@ -91,8 +91,7 @@ for isa in ("x86", "aarch64"):
         body = []
         for _ in range(rnd.randint(0, 6)):
             body += rnd.choice([[rnd.choice(BODY[isa])], [rnd.choice(BODY[isa])], rnd.choice(DECOY[isa]), [rnd.choice(NOISE[isa][:3])]])
-        if body and body[0].startswith(".byte") and style != "comment":
-            body.insert(0, BODY[isa][0])  # further .byte lines directly after the marker bytes would belong to the marker
+        # (a body may begin with a .byte line of its own: the marker consists of exactly its documented bytes)
         # decoys that end in a bare marker-looking tail could merge with the real marker; keep a separator line
         lines = pro + ["nop"] + start + body + end + ["nop"] + epi
         text = "\n".join(lines) + "\n"
